@@ -159,12 +159,39 @@ var f1GoSimple = func() []*glyf.Glyph {
 	return out
 }()
 
+// f1BigGlyf: n (>= 2) glyphs without contours whose instructions pad the encoded glyf table to
+// exactly total bytes (total even, 12*n <= total <= 65000*n): the loca-format boundaries.
+const f1BigGlyfSeed = uint64(1) << 40
+
+func f1BigGlyf(n, total int) *glyf.Outlines {
+	o := &glyf.Outlines{Maxp: f1GoRegularGlyphs.Maxp, Tables: map[string][]byte{}}
+	rest := total
+	for i := 0; i < n; i++ {
+		size := total / n / 2 * 2
+		if i == n-1 {
+			size = rest
+		}
+		rest -= size
+		instr := size - 12 // 10 bytes glyph header + 2 bytes instruction length + instructions
+		enc := make([]byte, 2+instr)
+		enc[0], enc[1] = byte(instr>>8), byte(instr)
+		for j := 2; j < len(enc); j++ {
+			enc[j] = byte(i + j)
+		}
+		o.Glyphs = append(o.Glyphs, &glyf.Glyph{Data: glyf.SimpleGlyph{NumContours: 0, Encoded: enc}})
+	}
+	return o
+}
+
 // f1BuildOutlines makes glyph data for n glyphs from a seed; kind 'g' glyf, 'c' simple CFF,
 // 'k' CID-keyed CFF.  Widths are set separately.
 func f1BuildOutlines(kind byte, n int, seed uint64) sfnt.Outlines {
 	r := NewRng(seed*7919 + uint64(n))
 	switch kind {
 	case 'g':
+		if seed >= f1BigGlyfSeed { // a glyf table of exactly seed-f1BigGlyfSeed bytes
+			return f1BigGlyf(n, int(seed-f1BigGlyfSeed))
+		}
 		o := &glyf.Outlines{Maxp: f1GoRegularGlyphs.Maxp, Tables: map[string][]byte{}}
 		for i := 0; i < n; i++ {
 			if (i == 0 && seed%4 != 0) || r.Chance(1, 8) {
@@ -364,6 +391,31 @@ func f1BuildCmap(recipe string, n int) cmap.Table {
 				}
 				mm[uint16(0x30+lang)] = glyph.ID(1 + lang%max(n-1, 1))
 				t[cmap.Key{PlatformID: 1, EncodingID: 0, Language: uint16(lang)}] = mm.Encode(uint16(lang))
+			}
+		case fl == "e6" || fl == "s6" || fl == "s0" || fl == "E6" || fl == "M6":
+			// a short legacy subtable in LAST position of the table cmap.Table.Encode lays out:
+			// e6 the empty format 6 subtable (10 bytes, the shortest subtable there is), s6 a format 6
+			// subtable with two entries, s0 a format 0 subtable, under the key (4,0) which sorts last;
+			// E6: the empty format 6 subtable (1,0) is the only subtable; M6: (0,3) and the empty (1,0)
+			var leg []byte
+			switch fl {
+			case "s6":
+				leg = []byte{0, 6, 0, 14, 0, 0, 0, 65, 0, 2, 0, byte(min(n-1, 1)), 0, 0}
+			case "s0":
+				leg = make([]byte, 262)
+				leg[1], leg[2], leg[3] = 0, 1, 6
+				leg[6+65] = byte(min(n-1, 200))
+			default:
+				leg = []byte{0, 6, 0, 10, 0, 0, 0, 65, 0, 0}
+			}
+			switch fl {
+			case "E6":
+				t = cmap.Table{{PlatformID: 1, EncodingID: 0}: leg}
+			case "M6":
+				delete(t, cmap.Key{PlatformID: 3, EncodingID: 1})
+				t[cmap.Key{PlatformID: 1, EncodingID: 0}] = leg
+			default:
+				t[cmap.Key{PlatformID: 4, EncodingID: 0}] = leg
 			}
 		case fl == "u":
 			m12 := cmap.Format12{}
@@ -1843,6 +1895,43 @@ func init() {
 			rec.font.Gsub, rec.font.Gpos, rec.font.Gdef = f1BuildGsub(rec.rgsub, n), f1BuildGpos(rec.rgpos, n), f1BuildGdef(rec.rgdef, n)
 			f1EmitFont(c, rec, true)
 			c.Stat("sweep", "CID matrices x FDs x colliding keys")
+		}
+		// cmap tables that end in a short legacy subtable (format 0/6, incl. the 10-byte empty format 6
+		// subtable which ends exactly at the end of the table) on all three outline kinds
+		for v, ex := range []string{"/e6", "/s6", "/s0", "/E6", "/M6", "/m2/e6", "/u/e6", "/e6", "/E6", "/M6"} {
+			rec := f1GenFont(c)
+			for rec.font.NumGlyphs() < 3 || rec.font.NumGlyphs() > 40 || (v < 7) != rec.font.IsGlyf() ||
+				(rec.font.CreationTime.IsZero() && rec.font.ModificationTime.IsZero()) {
+				rec = f1GenFont(c)
+			}
+			n := rec.font.NumGlyphs()
+			rec.rcm = "1.2.1.2.0.1" + ex
+			rec.font.CMapTable = f1BuildCmap(rec.rcm, n)
+			f1EmitFont(c, rec, true)
+			c.Case(Direct, "font.nf", f1LineOfFont(rec.font, rec.rgl, rec.rcm, rec.rgsub, rec.rgpos, rec.rgdef), true)
+			c.Stat("sweep", "cmap ends in a short legacy subtable")
+		}
+		// TrueType fonts whose encoded glyf table has exactly the sizes around the loca-format
+		// boundaries (short loca: offsets/2 in 16 bits): 0xfffe, 0x10000, 0x1fffe, 0x20000, 0x20002 ...
+		for _, total := range []int{0xfffc, 0xfffe, 0x10000, 0x10002, 0x1fffc, 0x1fffe, 0x20000, 0x20002, 0x20004} {
+			rec := f1GenFont(c)
+			for !rec.font.IsGlyf() || (rec.font.CreationTime.IsZero() && rec.font.ModificationTime.IsZero()) {
+				rec = f1GenFont(c)
+			}
+			n := 4 + total%3
+			rec.rgl = f1BigGlyfSeed + uint64(total)
+			o := f1BuildOutlines('g', n, rec.rgl)
+			ws := make([]float64, n)
+			for i := range ws {
+				ws[i] = float64(500 + i)
+			}
+			f1SetWidths(o, ws, false)
+			rec.font.Outlines = o
+			rec.rcm, rec.rgsub, rec.rgpos, rec.rgdef = "1.2", "-", "-", "-"
+			rec.font.CMapTable, rec.font.Gsub, rec.font.Gpos, rec.font.Gdef = f1BuildCmap(rec.rcm, n), nil, nil, nil
+			f1EmitFont(c, rec, false)
+			c.Case(Direct, "font.nf", f1LineOfFont(rec.font, rec.rgl, rec.rcm, rec.rgsub, rec.rgpos, rec.rgdef), true)
+			c.Stat("sweep", "glyf table size at the loca-format boundaries")
 		}
 		for c.evals < c.N {
 			if c.Rng.Chance(1, 6) {
